@@ -213,14 +213,17 @@ def gen_soak(rng, seed, tier):
     # to earlier ones (NaN) or fresh big values: whatever memoises on them
     # grows with the number of evaluations
     nan = '(1E308*10-1E308*10)'
-    for k, f in enumerate(rng.sample(
-            ['=ROUND(1E308*10-1E308*10,2)', '=ROUNDUP(1E308*10-1E308*10,1)',
-             '=INT(1E308*10-1E308*10)', '=ABS(1E308*10-1E308*10)',
-             '=MAX(1E308*10-1E308*10,1)', '=FACT(150)&"x"',
-             '=SUM(1E308*10-1E308*10,2)', '=IF(1E308*10-1E308*10>0,1,2)'] +
+    for k, f in enumerate(
+            rng.sample(
+                ['=ROUND(1E308*10-1E308*10,2)',
+                 '=ROUNDUP(1E308*10-1E308*10,1)',
+                 '=INT(1E308*10-1E308*10)', '=ABS(1E308*10-1E308*10)',
+                 '=MAX(1E308*10-1E308*10,1)', '=FACT(150)&"x"',
+                 '=SUM(1E308*10-1E308*10,2)',
+                 '=IF(1E308*10-1E308*10>0,1,2)'], 2) +
             # every family of functions once (financial, math, text, date,
             # statistical, lookup, information)
-            [t.format(n=nan) for t in (
+            rng.sample([t.format(n=nan) for t in (
                 '=PMT(0.05,10,1000+{n})', '=PV(0.05,10,{n})',
                 '=NPV(0.1,{n},5)', '=SLN({n},1,5)', '=SQRT({n})',
                 '=POWER({n},2)', '=MOD({n},3)', '=LN({n})', '=EXP({n})',
@@ -229,8 +232,7 @@ def gen_soak(rng, seed, tier):
                 '={n}&"x"', '=CHOOSE(1,{n},2)', '=ISNUMBER({n})',
                 '={n}={n}', '={n}<1', '=-{n}', '={n}*2', '={n}^2',
                 '=PMT({n},10,1000)', '=PV(0.05,{n},100)',
-                '=YEAR({n})', '=ROUNDDOWN({n},1)', '=DEGREES({n})')],
-            3)):
+                '=YEAR({n})', '=ROUNDDOWN({n},1)', '=DEGREES({n})')], 3)):
         a = f'Sheet1!W{k + 1}'
         world['cells'][a] = f
         world['deps'][a] = []
